@@ -360,8 +360,12 @@ def c11_case(task):
     files = {'f': (b'a\nb\nc\n', 0o644), 'g': (b'', 0o644)}
     good = b'--- a/f\n+++ b/f\n@@ -1,3 +1,3 @@\n a\n-b\n+B\n c\n'
     if kind == 'patch':
-        if isinstance(payload, tuple):   # (files, patch): a workspace of its own
-            files, payload = payload
+        label = None
+        if isinstance(payload, tuple):   # (files, patch[, class label]): a workspace of its own
+            files, payload = payload[0], payload[1]
+            label = payload_label = None
+            if len(task[1]) > 2:
+                label = task[1][2]
         ws.make_ws(root, files, {'p1.patch': payload}, ['p1.patch'])
     else:
         ws.make_ws(root, files, {'p1.patch': good}, [])
@@ -373,7 +377,7 @@ def c11_case(task):
         if kind == 'patch':
             s = payload.decode('latin-1')
             big = any(len(n) >= 10 for l in s.splitlines() if l.startswith('@@') for n in ''.join(c if c.isdigit() else ' ' for c in l).split())
-            c = 'hunk-header-with-huge-number' if big else ('failing-hunk-of-lookalike-lines' if len(files) == 1 else ('failing-hunk-with-thousands-of-context-lines' if 'keep' in files else 'token-sequence'))
+            c = 'hunk-header-with-huge-number' if big else (label or 'token-sequence')
         else:
             c = 'series-file'
         out['violations'].append((c + ('+threads>1' if threads > 1 else '+threads=1'), o.cls,
@@ -430,14 +434,16 @@ def run_c11(tier, seed, res):
     for n in (40, 150, 400):
         for line in (b'\n', b'}\n'):
             body = b' ' + line
-            inputs.append(({'f': (line * n, 0o644)}, b'--- a/f\n+++ b/f\n@@ -1,%d +1,%d @@\n' % (n + 1, n) + body * (n // 2) + b'-x\n' + body * (n - n // 2)))
+            inputs.append(({'f': (line * n, 0o644)}, b'--- a/f\n+++ b/f\n@@ -1,%d +1,%d @@\n' % (n + 1, n) + body * (n // 2) + b'-x\n' + body * (n - n // 2), 'failing-hunk-of-lookalike-lines'))
     # a failing hunk with thousands of context lines (a full-context diff): the fuzz hint of the diagnostics has as many fuzz levels to try
     for n in (500, 4000):
         body = b''.join(b' l%d\n' % i for i in range(n // 2)) + b'-x\n+y\n' + b''.join(b' l%d\n' % i for i in range(n // 2, n))
-        inputs.append(({'f': (b''.join(b'l%d\n' % i for i in range(n)), 0o644), 'keep': (b'k\n', 0o644)}, b'--- a/f\n+++ b/f\n@@ -1,%d +1,%d @@\n' % (n + 1, n + 1) + body))
+        inputs.append(({'f': (b''.join(b'l%d\n' % i for i in range(n)), 0o644), 'keep': (b'k\n', 0o644)}, b'--- a/f\n+++ b/f\n@@ -1,%d +1,%d @@\n' % (n + 1, n + 1) + body, 'failing-hunk-with-thousands-of-context-lines'))
     # failing hunks in systematic shapes of mismatch: the failure diagnostics (closest match, hints) of the default verbosity
-    for fp in tq.failing_shapes(tq.initial(), 'e/i'):
-        inputs.append(fp.text().replace(b'e/i', b'f'))
+    m_sh = tq.initial()
+    for fp in tq.failing_shapes(m_sh, 'e/i'):
+        # (on the file the shapes were derived from: a mismatch somewhere in otherwise matching lines)
+        inputs.append(({'f': m_sh.files()['e/i'], 'g': (b'', 0o644)}, fp.text().replace(b'e/i', b'f'), 'failing-hunk-shape'))
     tasks = [('patch', inp, 1 + (i % 2)) for i, inp in enumerate(inputs)]
     maxlen = 2 if tier == 'quick' else 3
     for l in range(1, maxlen + 1):
